@@ -1,5 +1,5 @@
 (* C01 - container decoding is the exact inverse of the replay file format.  Statements only. *)
-From RU Require Import Base WireSpec Feistel Blowfish Container ContainerProofs.
+From RU Require Import Base WireSpec Feistel Blowfish Container ContainerProofs RealCipher.
 Open Scope N_scope.
 
 (* the cipher: a Feistel network is inverted by running the round keys backwards - for EVERY round function,
@@ -44,3 +44,23 @@ Theorem C01_bad_magic_valueerror : forall ciph ext game key m rest, assoc_get ex
   length m = 4%nat -> bytes_eqb m magic = false -> read_container ciph ext (m ++ rest) = Err EValue.
 Proof. exact bad_magic_valueerror. Qed.
 Print Assumptions C01_bad_magic_valueerror.
+
+(* ... and with the REAL cipher: the byte-level Blowfish of the model under each of the three keys of the format (key schedules computed inside Coq)
+   satisfies the cipher hypothesis above, so for the functions the extracted reader and writer actually run nothing is left assumed *)
+Theorem C01_real_cipher_inverse : forall ext game key, assoc_get ext key_table = Some (game, key) ->
+  forall b, length b = 8%nat -> real_cipher key (real_cipher_enc key b) = b /\ length (real_cipher_enc key b) = 8%nat.
+Proof. exact real_cipher_ok. Qed.
+Theorem C01_real_container_roundtrip : forall ext game key b0 extra prefix zpad,
+  assoc_get ext key_table = Some (game, key) ->
+  N.of_nat (length b0) < 2 ^ 31 -> Forall (fun b => N.of_nat (length b) < 2 ^ 31) extra -> N.of_nat (S (length extra)) < 2 ^ 31 ->
+  length prefix = 8%nat -> (Nat.modulo (length zpad) 8 = 0)%nat ->
+  read_container real_cipher ext (write_container (real_cipher_enc key) b0 extra prefix zpad) =
+  Ok {| ct_game := game; ct_engine := b0; ct_extra := map opt_block extra; ct_payload := zpad |}.
+Proof. exact real_container_roundtrip. Qed.
+Print Assumptions C01_real_container_roundtrip.
+(* inhabited, by computation with the real key schedule *)
+Example C01_real_example :
+  read_container real_cipher "wowsreplay"
+    (write_container (real_cipher_enc wows_key) [x7b; x7d] [[]; [x31]] (repeat x00 8) (repeat x41 9 ++ repeat x00 7)) =
+  Ok {| ct_game := "wows"; ct_engine := [x7b; x7d]; ct_extra := [None; Some [x31]]; ct_payload := (repeat x41 9 ++ repeat x00 7)%list |}.
+Proof. exact real_example. Qed.
